@@ -729,6 +729,37 @@ def idx_ops(rng, n_small, thorough):
     return ops
 
 
+def field_ops(rng, thorough):
+    """`snapfields`: every combination of stored quantities the writer can produce and the readers
+    accept — number density and/or mass density, temperature and/or pressure, with/without neutral
+    fractions, with/without velocities (hydro subgrids), and the two admissible combinations without
+    hydro — on small cubic task-based layouts (both readers), the plain reader with its flags
+    use_density / use_pressure (every admissible setting in thorough, a random one in quick)."""
+    import itertools
+    ops = []
+    layouts = [(4, p) for p in sorted(set(itertools.permutations((1, 2, 4))))] + [(4, (2, 2, 1)), (4, (1, 2, 2)), (2, (1, 1, 2)), (3, (1, 3, 1)), (6, (2, 3, 1))]
+
+    def op(hydro, nd, rho, T, P, fr, vel, ud, up):
+        n, g = rng.choice(layouts)
+        buf = rng.randint(1, max(1, g[0] * g[1] * g[2] - 1))
+        ops.append("snapfields %d %d %d %d %d %d %d %d %d %d %d %d %d %d %d %d" % (hydro, nd, rho, T, P, fr, vel, ud, up, n, n, n, g[0], g[1], g[2], buf))
+    for (nd, rho) in ((0, 1), (1, 0), (1, 1)):
+        for (T, P) in ((0, 1), (1, 0), (1, 1)):
+            for fr in (1, 0):
+                for vel in (0, 1):
+                    flags = [(ud, up) for ud in ([0, 1] if rho else [0]) for up in ([0, 1] if P else [0])]
+                    for (ud, up) in (flags if thorough else [rng.choice(flags)]):
+                        op(1, nd, rho, T, P, fr, vel, ud, up)
+    for fr in (1, 0):
+        for _ in range(3 if thorough else 1):
+            op(0, 1, 0, 1, 0, fr, 0, 0, 0)
+    # the combination in which the order of the two fallback statements of the buffered reader
+    # matters, on every layout
+    for (n, g) in (layouts if thorough else layouts[:3]):
+        ops.append("snapfields 1 0 1 0 1 1 0 0 0 %d %d %d %d %d %d 1" % (n, n, n, g[0], g[1], g[2]))
+    return ops
+
+
 def snap_ops(rng, n_plain, n_task, thorough=False):
     """`snap`: legacy Cartesian grid -> CMacIonizeSnapshotDensityFunction;
     `snapb`: task-based grid (DensitySubGridCreator) -> both readers.  For `snapb` the per-subgrid
@@ -809,6 +840,20 @@ def snapshot_experiment(ctx):
             for t in ml.split(" #")[1].split(","):
                 ctx.branch("snapshot:" + t)
         ctx.distinct(("snapidx", o), nontrivial=(w[1] == "task" and len({w[5], w[6], w[7]}) > 1))
+    # ---- stored-field combinations: model (encode / decodeBuffered / decodePlain, theorems
+    # decodeBuffered_encode / decodePlain_encode) against the real Hydro + writer + readers
+    fops = [o for o in vlib.corpus_ops("C20") if o.startswith("snapfields")] + field_ops(ctx.rng, ctx.thorough)
+    nmis, fimpl, fmodel, forc = ctx.correspond("snapshot-fields", exe, vlib.driver("drv_c20"), fops,
+                                               cmp=lambda a, b, op: a == vlib.strip_branch(b).strip(),
+                                               oracle_key=lambda what, grp: "snapshot:" + what.split()[0])
+    for o, ml in zip(fops, fmodel):
+        ctx.count()
+        w = o.split()
+        if " #" in ml:
+            ctx.branch("snapshot:" + ml.split(" #")[1])
+        ctx.distinct(("snapfields", o), nontrivial=(w[3] == "1" or w[5] == "1"))
+    ctx.cov["snapshot_experiment"]["field_combination_grids"] = len(fops)
+    ctx.cov["snapshot_experiment"]["field_combinations"] = len({tuple(o.split()[1:10]) for o in fops})
     ctx.cov["snapshot_experiment"]["index_map_grids"] = len(iops)
     ctx.cov["snapshot_experiment"]["index_map_cells"] = sum(int(o.split()[2]) * int(o.split()[3]) * int(o.split()[4]) for o in iops)
     for o in ops:
@@ -836,7 +881,7 @@ def readable(op):
 def replay(ctx, path):
     import json
     obj = json.load(open(path))
-    if obj.get("stream") == "snapshot-index":
+    if obj.get("stream") in ("snapshot-index", "snapshot-fields"):
         exe = snap_build()
         vlib.lake_build(["drv_c20"])
         text = "\n".join(obj["ops"]) + "\n"
